@@ -46,17 +46,18 @@ impl<T: Iterator<Item = Token>> TryFrom<&mut Peekable<T>>
                 false
             };
             iter.next_separator_eq_or_err(')')?;
-            let start = start
-                .text()
-                .filter(|txt| !txt.eq_ignore_ascii_case("MIN"))
-                .map(|t| match t.parse::<i64>() {
-                    Ok(lit) => LitOrRef::Lit(lit),
-                    Err(_) => LitOrRef::Ref(t.to_string()),
-                });
+            let start =
+                start
+                    .text()
+                    .filter(|txt| !txt.eq(&"MIN"))
+                    .map(|t| match t.parse::<i64>() {
+                        Ok(lit) => LitOrRef::Lit(lit),
+                        Err(_) => LitOrRef::Ref(t.to_string()),
+                    });
 
             let end = end
                 .text()
-                .filter(|txt| !txt.eq_ignore_ascii_case("MAX"))
+                .filter(|txt| !txt.eq(&"MAX"))
                 .map(|t| match t.parse::<i64>() {
                     Ok(lit) => LitOrRef::Lit(lit),
                     Err(_) => LitOrRef::Ref(t.to_string()),
